@@ -8,7 +8,7 @@ CLAIMED = {
  "C01": ("exploration", "property-based testing against an exact-arithmetic reference model (proptest, model-guided history generator); thorough tier adds a coverage-guided libFuzzer campaign that decodes bytes into the same generator's intents (ledger_intents)",
          "Generated histories (all five actions, several affiliates/securities/currencies, non-terminating quantities, shuffled file order, opening positions) are run through the real CSV->ledger path and every row (shares, all-affiliate shares, ACB, gain, SfL, automatic adjustments) is compared within 1e-9 with an independent exact rational model. Exploration is the right level: the property quantifies over all histories and has an executable oracle.",
          "Trusts harness/src/model.rs (written from the property text; self-tested) and harness/src/bigrat.rs (self-tested against python fractions). Totals kept below 1e13.", "DESIGN.md section 4 C01"),
- "C02": ("exploration", "property-based testing against the reference model with boundary-weighted window scenarios and a deterministic (offset x order x buyer) sweep",
+ "C02": ("exploration", "property-based testing against the reference model with boundary-weighted window scenarios and a deterministic (offset x order x buyer) sweep; thorough tier adds the coverage-guided ledger_intents libFuzzer campaign over the scenario builder",
          "Loss sales with acquisitions, later sales and splits at offsets -61..+61 (every boundary day, same-day before/after) by selling/other/registered affiliates; denied amount, ratio, gain, adjustments and accept/reject of declared values compared with the exact model.",
          "Same trusted base as C01. Declared values on registered sellers are not generated.", "DESIGN.md section 4 C02"),
  "C03": ("exploration", "property-based testing of a model-free accounting identity at every prefix (plus model-based apportioning); thorough tier adds the coverage-guided ledger_intents libFuzzer campaign with the same oracle",
